@@ -3,6 +3,7 @@
 package harness
 
 import (
+	"encoding/json"
 	"context"
 	"fmt"
 	"math/rand"
@@ -135,7 +136,67 @@ func runStress(rep *Report, rng *rand.Rand, n int, thorough bool) error {
 	}
 	wg.Wait()
 	runDuel(rep, rng, dur/2)
+	runStopRace(rep, rng, dur/3)
 	return nil
+}
+
+// runStopRace: Stop (or StopWithContext) called while the acquiring Create of the same election is in flight, over and over
+// on all cores; whenever the stop call has returned the election must not report leadership - at once and a little later
+// (C09: an acquisition answered after the stop began is refused, at whatever moment the stop is called).
+func runStopRace(rep *Report, rng *rand.Rand, dur time.Duration) {
+	deadline := time.Now().Add(dur)
+	var mu sync.Mutex
+	var wg sync.WaitGroup
+	bad := ""
+	cycles := 0
+	for wkr := 0; wkr < 8; wkr++ {
+		seed := rng.Int63()
+		wg.Add(1)
+		go func(wkr int) {
+			defer wg.Done()
+			r := rand.New(rand.NewSource(seed))
+			for cycle := 0; time.Now().Before(deadline); cycle++ {
+				kv := newMemKV(r.Int63())
+				h := 20 * time.Millisecond
+				cfg := leader.ElectionConfig{Bucket: "b", Group: "g", InstanceID: "i1", TTL: 3 * h, HeartbeatInterval: h}
+				el, err := leader.NewElection(&memProvider{kv, nil}, cfg)
+				if err != nil {
+					return
+				}
+				_ = el.Start(context.Background())
+				// the Create of this store takes up to ~200 µs: stop somewhere around its answer
+				d := time.Duration(r.Intn(300)) * time.Microsecond
+				for t0 := time.Now(); time.Since(t0) < d; {
+					runtime.Gosched()
+				}
+				var serr error
+				if r.Intn(2) == 0 {
+					serr = el.Stop()
+				} else {
+					serr = el.StopWithContext(context.Background(), leader.StopOptions{DeleteKey: r.Intn(2) == 0, Timeout: time.Second})
+				}
+				l1 := el.IsLeader()
+				time.Sleep(time.Duration(200+r.Intn(800)) * time.Microsecond)
+				l2 := el.IsLeader()
+				st := el.Status()
+				mu.Lock()
+				cycles++
+				if (l1 || l2 || st.IsLeader || st.State == "LEADER") && serr == nil && bad == "" {
+					bad = fmt.Sprintf("cycle %d of worker %d: stop call returned nil %v after Start; IsLeader() right after = %v, a little later = %v, Status = {State:%s IsLeader:%v}",
+						cycle, wkr, d, l1, l2, st.State, st.IsLeader)
+				}
+				mu.Unlock()
+				_ = el.Stop()
+			}
+		}(wkr)
+	}
+	wg.Wait()
+	rep.Cases++
+	rep.Compared += cycles
+	rep.Dist["stress:stop-race-cycles"] += cycles
+	if bad != "" {
+		rep.violation(Finding{Property: "C09", Clause: "leader-after-stop-under-concurrency", Input: "start, then a stop call while the acquiring Create is in flight", Detail: bad})
+	}
 }
 
 // chainMetrics records the stream of state transitions of one election (C18: each one starts in the state the previous
@@ -190,6 +251,17 @@ func (duelMetrics) ObserveLeaderDuration(time.Duration, prometheus.Labels)      
 // every flag raise.
 func runDuel(rep *Report, rng *rand.Rand, dur time.Duration) {
 	kv := newMemKV(rng.Int63())
+	// C05: an Update that keeps the record's owner is a refresh - it republishes exactly the token it replaces
+	badRefresh := ""
+	kv.onUpdate = func(prev, next []byte) {
+		var a, b struct {
+			ID    string `json:"id"`
+			Token string `json:"token"`
+		}
+		if json.Unmarshal(prev, &a) == nil && json.Unmarshal(next, &b) == nil && a.ID == b.ID && a.Token != b.Token && badRefresh == "" {
+			badRefresh = fmt.Sprintf("%s overwrote its own record %s with %s", a.ID, prev, next)
+		}
+	}
 	h := 20 * time.Millisecond
 	els := make([]leader.Election, 3)
 	var mu sync.Mutex
@@ -285,6 +357,11 @@ func runDuel(rep *Report, rng *rand.Rand, dur time.Duration) {
 	if dupTok != "" {
 		rep.violation(Finding{Property: "C05", Clause: "token-repeated-under-concurrency", Input: "duel", Detail: dupTok})
 	}
+	kv.mu.Lock()
+	if badRefresh != "" {
+		rep.violation(Finding{Property: "C05", Clause: "refresh-changes-token-under-concurrency", Input: "duel", Detail: badRefresh})
+	}
+	kv.mu.Unlock()
 	if incoherent != "" {
 		rep.violation(Finding{Property: "C18", Clause: "status-incoherent-under-concurrency", Input: "duel", Detail: incoherent})
 	}
